@@ -3,7 +3,7 @@
    Extracted with ExtrOcamlBasic only. *)
 From Coq Require Import String.
 From PV Require Import Base.Bytes Base.Outcome Base.Prim Base.Fmt Base.Enum Spec.ElfGabi Spec.C02Spec
-     Gen.ElfLayouts Model.C02Contents Proofs.C02Proofs.
+     Gen.ElfLayouts Model.C02Contents.
 Open Scope string_scope.
 
 Definition fval_of (s : sx) : fval := match s with SB b => VB b | _ => VZ (gI s) end.
